@@ -14,6 +14,7 @@ let handle (f : string list) : string =
   | ["tiles"; cfg; src] -> opt_hex (tiles_case (bytes_of_hex cfg) (bytes_of_hex src))
   | ["ctxsim"; src] -> opt_hex (ctx_sim_case (bytes_of_hex src))
   | ["ctxfrag"; src] -> opt_hex (ctx_frag_case (bytes_of_hex src))
+  | ["ctxsim2"; src] -> opt_hex (ctx_sim2_case (bytes_of_hex src))
   | ["devs"; cfg; src] -> opt_hex (lex_devs (bytes_of_hex cfg) (bytes_of_hex src))
   | _ -> "driver-error:unknown-command"
 
